@@ -337,6 +337,19 @@ def run_case(case, dec):
                      if np.shape(got) == np.shape(want) else float("nan"),
                      entry.tol))
 
+    def release_readers(fname):
+        """Before a file is written again its readers are closed, as a user
+        has to do (HDF5 refuses to truncate a file that is still open)."""
+        for e in pool:
+            if not e.closed and getattr(e.obj, "filename", None) == fname \
+                    and hasattr(e.obj, "close"):
+                try:
+                    e.obj.close()
+                except Exception:  # noqa: BLE001
+                    pass
+                e.closed = True
+        disk.sync_closed()
+
     for op in case["ops"]:
         if len(violations) >= 2:
             break
@@ -353,6 +366,7 @@ def run_case(case, dec):
                 continue
             fname = FILES[op[2]]
             overwrite = op[3]
+            release_readers(fname)
             existed = disk.exists(fname)
             try:
                 e.obj.export(fname, overwrite=overwrite)
@@ -437,6 +451,7 @@ def run_case(case, dec):
             if e.closed or not e.origin.startswith("import:simple"):
                 continue
             fname = FILES[op[2]]
+            release_readers(fname)
             try:
                 e.obj.export(fname, overwrite=True)
             except Exception as ex:  # noqa: BLE001
@@ -448,6 +463,7 @@ def run_case(case, dec):
             log.ev("reexport", fname)
         elif kind == "ptt_file":
             spec, fname, ptype = op[1], FILES[op[2]], op[3]
+            release_readers(fname)
             mem = _ptt(spec, None)
             fpt = _ptt(spec, fname)
             stats["ptt_file"] += 1
